@@ -14,7 +14,16 @@ use simcore::{Fnv, Rng};
 #[derive(Clone, Debug, Serialize, Deserialize, PartialEq)]
 pub(crate) enum Step {
     /// a batch through exec_mut by user (0 = owner, 1 = second user with write role)
-    Batch { user: u64, ops: Vec<Op>, use_result_refs: bool },
+    /// `tail`: 0 = nothing appended; 1 = read-only queries appended after the last mutating query;
+    /// 2 = a read-only query that fails (unknown alias) appended after the last mutating query;
+    /// 3 = a search from a result reference that does not exist appended
+    Batch {
+        user: u64,
+        ops: Vec<Op>,
+        use_result_refs: bool,
+        #[serde(default)]
+        tail: u64,
+    },
     /// a batch through the read-only exec endpoint that contains a mutating query (must be refused)
     MutThroughExec { ops: Vec<Op> },
     /// a read-only batch through exec_mut (allowed, not audited)
@@ -45,7 +54,7 @@ pub(crate) fn generate(seed: u64, run: u64, tier: Tier) -> Plan {
     let mut g = dbprog::Gen::new(&mut rng, cfg);
     let mut steps = vec![];
     // seed content
-    steps.push(Step::Batch { user: 0, ops: vec![Op::InsertNodes { count: 2, aliases: vec!["al0".into()], values: dbprog::Values::Single(g.kvs(2)) }], use_result_refs: false });
+    steps.push(Step::Batch { user: 0, ops: vec![Op::InsertNodes { count: 2, aliases: vec!["al0".into()], values: dbprog::Values::Single(g.kvs(2)) }], use_result_refs: false, tail: 0 });
     g.slots = 2;
     for _ in 0..n_steps {
         let n_ops = g.rng.range(1, 5);
@@ -55,7 +64,7 @@ pub(crate) fn generate(seed: u64, run: u64, tier: Tier) -> Plan {
             1 => Step::MutThroughExec { ops },
             2 => Step::ReadBatch,
             3 => Step::BadResultRef { ops },
-            _ => Step::Batch { user: g.rng.below(2), ops, use_result_refs: g.rng.chance(1, 2) },
+            _ => Step::Batch { user: g.rng.below(2), ops, use_result_refs: g.rng.chance(1, 2), tail: if g.rng.chance(1, 2) { 0 } else { g.rng.range(1, 3) } },
         };
         steps.push(s);
     }
@@ -71,8 +80,13 @@ struct Expected {
 
 /// Executes the batch on the reference (one transaction) and returns the concrete queries it consisted of.
 fn reference_batch(reference: &mut DbMemory, sh: &mut Shadow, ops: &[Op]) -> Expected {
+    reference_batch_tail(reference, sh, ops, false)
+}
+
+/// `fail_at_end`: the batch ends with a query that fails, so the reference aborts after all `ops` ran.
+fn reference_batch_tail(reference: &mut DbMemory, sh: &mut Shadow, ops: &[Op], fail_at_end: bool) -> Expected {
     dbexec::RECORD.with(|r| *r.borrow_mut() = Some(vec![]));
-    let o = dbexec::step(reference, sh, &Op::Txn { ops: ops.to_vec(), fail_after: None });
+    let o = dbexec::step(reference, sh, &Op::Txn { ops: ops.to_vec(), fail_after: if fail_at_end { Some(ops.len() as u64) } else { None } });
     let rec = dbexec::RECORD.with(|r| r.borrow_mut().take()).unwrap_or_default();
     let (queries, results): (Vec<_>, Vec<_>) = rec.into_iter().unzip();
     Expected { queries, results, ok: o.ok }
@@ -252,12 +266,36 @@ fn run(plan: &Plan, dir: &str, rep: &mut RunReport) -> Result<Option<(String, St
                 }
                 what = format!("step {n} batch with an out-of-bounds result reference (refused {})", r.status);
             }
-            Step::Batch { user, ops, use_result_refs } => {
-                let e = reference_batch(&mut reference, &mut sh, ops);
+            Step::Batch { user, ops, use_result_refs, tail } => {
+                let mut e = reference_batch_tail(&mut reference, &mut sh, ops, *tail >= 2);
                 if e.queries.is_empty() {
                     continue;
                 }
-                let send = if *use_result_refs { with_result_refs(&e.queries, &e.results, n as u64 + 7) } else { e.queries.clone() };
+                let mut send = if *use_result_refs { with_result_refs(&e.queries, &e.results, n as u64 + 7) } else { e.queries.clone() };
+                // read-only queries behind the last mutating one are part of the same all-or-nothing batch
+                if e.results.iter().all(|r| r.is_ok()) {
+                    use agdb::*;
+                    match *tail {
+                        1 => {
+                            let tail_q = vec![QueryType::SelectNodeCount(SelectNodeCountQuery {}), QueryType::SelectAllAliases(SelectAllAliasesQuery {})];
+                            e.results.push(reference.exec(&SelectNodeCountQuery {}).map_err(|e| e.description));
+                            e.results.push(reference.exec(&SelectAllAliasesQuery {}).map_err(|e| e.description));
+                            e.queries.extend(tail_q.clone());
+                            send.extend(tail_q);
+                            rep.count("batch.read_only_tail", 1);
+                        }
+                        2 => {
+                            send.push(QueryType::SelectNodeCount(SelectNodeCountQuery {}));
+                            send.push(QueryType::SelectValues(SelectValuesQuery { keys: vec![], ids: QueryIds::Ids(vec![QueryId::Alias("no-such-alias".into())]) }));
+                            rep.count("fault.abort.failing_read_after_last_mutation", 1);
+                        }
+                        3 => {
+                            send.push(QueryType::SelectValues(SelectValuesQuery { keys: vec![], ids: QueryIds::Ids(vec![QueryId::Alias(":41".into())]) }));
+                            rep.count("fault.abort.bad_result_reference_in_read_after_last_mutation", 1);
+                        }
+                        _ => {}
+                    }
+                }
                 let uname = USERS[*user as usize];
                 let r = rt.block_on(ctx.server.call("POST", &format!("{path}/exec_mut"), Some(&ctx.tokens[*user as usize]), Some(serde_json::to_value(&send).unwrap())));
                 what = format!("step {n} batch of {} queries by {uname} ({})", send.len(), if e.ok { "valid" } else { "contains a failing query" });
